@@ -49,11 +49,13 @@ Print Assumptions C14_at_once.
 Theorem C14_at_once_answered : forall inp s i w t old, reachable inp s ->
   pc s i = RRun w -> nth_error inp i = Some (FReq t (KFlush old)) ->
   (old = t \/ forall j k, j < i -> nth_error inp j = Some (FReq old k) -> running (pc s j) = false) ->
-  exists ls s', forallb progress_label ls = true /\ run inp ls s = Some s' /\ In (i, rflush_reply) (replies s').
+  exists ls s', forallb progress_label ls = true /\ run inp ls s = Some s' /\ send_over s' i rflush_reply /\
+                (wbroken s = false -> In (i, rflush_reply) (replies s')).
 Proof.
   intros inp s i w t old R Hp Hf Hc. pose proof (reachable_Inv inp s R) as I.
-  destruct (flush_completes inp s i w t old I Hp Hf Hc) as (ls & s' & H1 & H2 & H3).
-  exists ls, s'. repeat split; auto. apply (I_rep inp s' (run_Inv inp ls s s' I H2)). exact H3.
+  destruct (flush_completes inp s i w t old I Hp Hf Hc) as (ls & s' & H1 & H2 & H3 & H4).
+  exists ls, s'. repeat split; auto. intros Hb.
+  apply (send_over_unbroken inp s' i _ (run_Inv inp ls s s' I H2)); [congruence|exact H3].
 Qed.
 Print Assumptions C14_at_once_answered.
 
@@ -97,6 +99,10 @@ Theorem C14_tie_cleartag : cleartag_after_handle = true /\ cleartag_before_send 
   body_connState_ClearTag = ["cs.tagMu.Lock()"; "defer cs.tagMu.Unlock()"; "ch, ok := cs.tags[t]"; "if !ok { panic(""unused tag cleared"") }"; "delete(cs.tags, t)"; "close(ch)"]%string /\
   body_connState_TagDone = ["cs.tagMu.Lock()"; "defer cs.tagMu.Unlock()"; "ch, ok := cs.tags[t]"; "if !ok { return nil }"; "return ch"]%string.
 Proof. exact (conj tie_cleartag_after_handle (conj tie_cleartag_before_send (conj tie_ClearTag tie_TagDone))). Qed.
+(** every backend call made on behalf of a request happens inside its handle: the server-side files
+    start no goroutine except the receiver hand-off and the accept loop *)
+Theorem C14_tie_no_background_work : go_sites = ["connState.handleRequest"; "Server.ServeContext"; "Server.ServeContext"]%string.
+Proof. exact tie_go_sites. Qed.
 Theorem C14_tie_events : handleRequest_events = expected_events.
 Proof. exact tie_events. Qed.
 
